@@ -857,7 +857,7 @@ class Machine:
             raise HarnessError("split cannot be replayed dry")
         self.used_specs = list(h.lineage)
         try:
-            before = self._conjunct_hashes(h.solver.constraints)
+            before = self._conjunct_hashes(h.solver.constraints, True)
         except Exception as e:  # noqa: BLE001
             self.unexpected(h, op, e)
         res = self.call(h.solver.split)
@@ -872,14 +872,19 @@ class Machine:
                 if v in seen:
                     self.bad("split-shares-variable", h, op, variable=v, parts=[seen[v], i])
                 seen[v] = i
-        # (2) every conjunct exactly once
+        # (2) every conjunct of s exactly once (a part may hold further conjuncts that s.constraints does not list,
+        # e.g. a re-added constraint the composite deduplicated in its own list: joint equivalence is decided in (3))
         after = []
         for p in parts:
-            after.extend(self._conjunct_hashes(p.constraints))
-        if sorted(before) != sorted(after):
-            self.bad("split-conjuncts-differ", h, op, before=len(before), after=len(after),
-                     missing=len(set(before) - set(after)), extra=len(set(after) - set(before)),
-                     duplicated=len(after) - len(set(after)))
+            after.extend(self._conjunct_hashes(p.constraints, True))
+        cnt = {}
+        for x in after:
+            cnt[x] = cnt.get(x, 0) + 1
+        missing = [x for x in set(before) if x not in cnt]
+        dup = [x for x in set(before) if cnt.get(x, 0) > 1]
+        if missing or dup:
+            self.bad("split-conjuncts-differ", h, op, before=len(before), after=len(after), missing=len(missing),
+                     duplicated=len(dup))
         # (3) jointly equivalent: each part becomes a handle whose reference is the projection of M on its variables
         out = []
         if h.ref.M:
@@ -890,15 +895,33 @@ class Machine:
                 nh = Handle(p, self.ref0().with_models(M), type(p).__name__, h.kw, list(h.lineage), h.mode, "split")
                 self.handles.append(nh)
                 out.append(len(self.handles) - 1)
+                # probe the part right away with assignments of its own variables: members and non-members
+                if pv and h.mode == "exact":
+                    allp = sorted({tuple(m[i] for i in pv) for m in self.ref0().universe})
+                    step = max(1, len(allp) // 10)
+                    for asg in allp[::step][:12]:
+                        ex = []
+                        for i, val in zip(pv, asg):
+                            n = self.order[i]
+                            w = self.variables[n]
+                            ex.append(["eq", ["var", n], ["const", val, w]] if w else (["var", n] if val else ["bnot", ["var", n]]))
+                        st, val = self.call(p.satisfiable, extra_constraints=tuple(self.asts(ex)))
+                        if st == "exc":
+                            self.unexpected(nh, op, val)
+                        got = False if st == "unsat" else bool(val)
+                        if got != (asg in proj):
+                            self.bad("split-part-wrong", nh, op, assignment=ex, got=got, expected=(asg in proj))
         return ["parts", len(parts), out]
 
-    def _conjunct_hashes(self, cons):
+    def _conjunct_hashes(self, cons, skip_trivial=False):
         hs = []
         for c in cons:
-            if getattr(c, "op", None) == "And":
-                hs.extend(a.hash() for a in c.args)
-            else:
-                hs.append(c.hash())
+            for a in (c.args if getattr(c, "op", None) == "And" else (c,)):
+                # a conjunct claripy itself knows to be a tautology carries no constraint: whether a solver keeps
+                # `<Bool True>` in its list is not part of split()'s contract
+                if skip_trivial and self.cl.is_true(a):
+                    continue
+                hs.append(a.hash())
         return hs
 
     # ------------------------------------------------------------------ ops: unsat core (C16)
